@@ -132,7 +132,23 @@ fn main() {
         let algo = *r.pick(&[FuzzyAlgorithm::SkimV1, FuzzyAlgorithm::SkimV2, FuzzyAlgorithm::Clangd]);
         let regex_mode = focus != "C04" && r.chance(1, 8);
         let query = if regex_mode { r.pick(&["a", "a.c", "^a", "b$", "[ab]+", "(", "a|b", "", "A", "\\w+", "x*", "中"]).to_string() }
-                    else if focus == "C03" { gen_term(&mut r) } else { gen_query(&mut r) };
+                    else if focus == "C03" { gen_term(&mut r) }
+                    else if r.chance(1, 4) && text.chars().count() >= 2 {
+                        // terms cut out of the text itself: adjacent, overlapping, nested, out of order
+                        let cs: Vec<char> = text.chars().collect();
+                        let nt = 2 + r.below(2);
+                        let mut parts = Vec::new();
+                        let mut at = r.below(cs.len() as u64) as usize;
+                        for _ in 0..nt {
+                            let len = 1 + r.below(3) as usize;
+                            let piece: String = cs[at.min(cs.len() - 1)..(at + len).min(cs.len())].iter().filter(|c| !" \t|'^$!\\".contains(**c)).collect();
+                            if !piece.is_empty() { parts.push(if r.chance(1, 3) { format!("'{}", piece) } else { piece }); }
+                            // next term starts on the last character of this one, right after it, or anywhere
+                            at = match r.below(4) { 0 => (at + len).saturating_sub(1), 1 => at + len, 2 => at, _ => r.below(cs.len() as u64) as usize };
+                        }
+                        if parts.is_empty() { gen_query(&mut r) } else { parts.join(" ") }
+                    }
+                    else { gen_query(&mut r) };
         // --nth ranges on character boundaries (C08 focus: more often, any order)
         let bounds: Vec<usize> = text.char_indices().map(|(i, _)| i).chain(std::iter::once(text.len())).collect();
         let ranges: Option<Vec<(usize, usize)>> = if r.chance(if focus == "C08" { 2 } else { 1 }, 3) {
